@@ -43,6 +43,22 @@ MUT = [
 ]
 
 
+LOS = "synapgrad/nn/losses.py"
+MUT6 = [
+    ("baseline", None),
+    ("F1 softmax fwd divides by exp_sums + epsilon", ("edit", CPU, "return exps / exp_sums", "return exps / (exp_sums + epsilon)")),
+    ("F2 bn fwd normalises with the unbiased variance", ("edit", CPU, "else x.var(axis=normed_dims)", "else x.var(axis=normed_dims, ddof=1)")),
+    ("F3 Loss.__call__ swaps sum and mean", ("edits", LOS, [("reduction = loss.sum()", "reduction = loss.TMP()"), ("reduction = loss.mean()", "reduction = loss.sum()"), ("reduction = loss.TMP()", "reduction = loss.mean()")])),
+    ("F4 nll fwd without the minus", ("edit", CPU, "loss = -y_pred[range(len(y_pred)), y_true].reshape((-1, 1))", "loss = y_pred[range(len(y_pred)), y_true].reshape((-1, 1))")),
+    ("F5 bn std = sqrt(var) + eps", ("edit", CPU, "std = np.sqrt(var + eps)", "std = np.sqrt(var) + eps")),
+    ("F6 log_softmax lse without max_val", ("edit", CPU, "lse = max_val + np.log(exp.sum(axis=axis, keepdims=True))", "lse = np.log(exp.sum(axis=axis, keepdims=True))")),
+    ("F7 bn running var update with the biased variance", ("edit", CPU, "unbiased_var = var * (n / (n - 1))", "unbiased_var = var * 1.0")),
+    ("F8 CrossEntropyLoss.forward calls F.nll_loss", ("edit", LOS, "return F.cross_entropy(y_pred, y_true)", "return F.nll_loss(y_pred, y_true)")),
+    ("F9 bn affine: beta applied before gamma", ("edits", CPU, [("        x_norm *= gamma.reshape(keepdims_shape)", "        x_norm *= gamma.reshape(keepdims_shape) if beta is None else 1.0"),])),
+    ("G1 rename `loss` in Loss.__call__", ("edits", LOS, [("loss = super().__call__(y_pred, y_true)", "value = super().__call__(y_pred, y_true)"), ("loss.sum()", "value.sum()"), ("loss.mean()", "value.mean()"), ("reduction = loss ", "reduction = value ")])),
+]
+
+
 def sh(cmd, cwd=None, env=None, timeout=1800):
     e = dict(os.environ)
     if env:
@@ -66,6 +82,8 @@ def apply(m):
         assert s.count(old) >= 1, (m, old)
         if m[0] == "edit":
             assert s.count(old) == 1, (old, s.count(old))
+        elif len(pairs) > 1 and s.count(old) != 1 and m[1] == LOS:
+            assert s.count(old) >= 1, old
         s = s.replace(old, new)
     open(path, "w").write(s)
 
@@ -98,14 +116,17 @@ def check(pid):
 
 def main():
     sel = sys.argv[1:]
-    for name, m in MUT:
+    muts, pids = MUT, ("KVC02", "KVC09", "KVC14", "KVC13")
+    if sel and sel[0] == "--c06":
+        sel, muts, pids = sel[1:], MUT6, ("KVC06",)
+    for name, m in muts:
         if sel and not any(s in name for s in sel):
             continue
         apply(m)
         t = tests()
         line = "%-42s tests=%s" % (name, t)
         print(line, flush=True)
-        for pid in ("KVC02", "KVC09", "KVC14", "KVC13"):
+        for pid in pids:
             rc, nv, desc = check(pid)
             print("    %s exit=%d violations=%d %s" % (pid, rc, nv, desc), flush=True)
     apply(None)
